@@ -89,8 +89,8 @@ Section G.
 
   (* identical reload: loading the same list again (freshly allocated, field-wise equal rules: the
      model compares values) returns 'unchanged' and changes nothing.  Hypothesis: reflect.DeepEqual
-     is reflexive on the rules of the list (false only for NaN float fields: finding C13-F1,
-     C13_identical_reload_nan_refuted).  Per-resource: for every list, the empty one included (the
+     is reflexive on the rules of the list (false only for NaN float fields - such rules are invalid
+     but still sit in the raw cache: finding C13-F1, C13_identical_reload_nan_refuted).  Per-resource: for every list, the empty one included (the
      second clear of a resource finds nothing cached and reports 'unchanged'). *)
   Theorem C13_identical_reload_unchanged_all : forall s l,
     refl_on rule deep_eq l -> load_all (fst (load_all s l)) l = (fst (load_all s l), r_unchanged).
@@ -143,18 +143,33 @@ Proof. exact (fun ops res => C13_getters_eq_enforced_separate brule brk_valid b_
 Theorem C13_isolation_ok_trivial : forall res r, ok irule i_res iso_always iso_quirks res r = true.
 Proof. reflexivity. Qed.
 
-(* known finding C13-F1: a NaN threshold passes IsValidRule (NaN < 0 is false) but is never equal to
-   itself under reflect.DeepEqual, so reloading the very same list reports 'changed' every time (the
-   rules in force stay the same: C13_enforced_eq_valid_latest does not need reflexivity) *)
+(* NaN thresholds.  Since the repair of IsValidRule (flow, circuit breaker) and IsValidSystemRule a rule
+   whose float threshold / trigger count is NaN is invalid, hence inert like every invalid rule
+   (C13_enforced_eq_valid_latest, C13_invalid_inert_*; outlier through the embedded breaker rule). *)
+Theorem C13_nan_invalid_flow : forall tm r, (f_thr r =? f_thr r)%float = false -> flow_valid tm r = false.
+Proof. exact flow_nan_invalid. Qed.
+Theorem C13_nan_invalid_breaker : forall r, (b_thr r =? b_thr r)%float = false -> brk_valid r = false.
+Proof. exact brk_nan_invalid. Qed.
+Theorem C13_nan_invalid_system : forall r, (s_trigger r =? s_trigger r)%float = false -> sys_valid r = false.
+Proof. exact sys_nan_invalid. Qed.
+
+(* known finding C13-F1 (narrowed by that repair): the raw-input cache holds the list as passed,
+   invalid rules included, and is compared with reflect.DeepEqual, under which NaN differs from itself:
+   reloading the very same list that contains a NaN-threshold rule reports 'changed' every time,
+   although the rule is now invalid and nothing is in force because of it *)
 Definition nan_rule : frule :=
   {| f_tag := 1; f_res := 5; f_tcs := 0; f_cb := 0; f_thr := nan; f_rel := 0; f_ref := 0; f_maxq := 0;
      f_wperiod := 0; f_wcold := 0; f_interval := 0; f_lowmem := 0; f_highmem := 0; f_memlow := 0; f_memhigh := 0 |}.
 
 Theorem C13_identical_reload_nan_refuted : exists tm s l,
-  flow_valid tm nan_rule = true /\ In (Some nan_rule) l /\
+  flow_valid tm nan_rule = false /\ In (Some nan_rule) l /\
   changed (snd (flow_step tm (fst (flow_step tm s (LoadAll l))) (LoadAll l))) = true
-  /\ changed (snd (flow_step tm (fst (flow_step tm s (LoadRes 5 l))) (LoadRes 5 l))) = true.
+  /\ changed (snd (flow_step tm (fst (flow_step tm s (LoadRes 5 l))) (LoadRes 5 l))) = true
+  /\ enforced_rules frule (fst (flow_step tm (fst (flow_step tm s (LoadAll l))) (LoadAll l))) 5 = [].
 Proof. exists 1000, (init frule), [Some nan_rule]. vm_compute. repeat split; auto. Qed.
+
+Example C13_nan_invalid_nonvacuous : (f_thr nan_rule =? f_thr nan_rule)%float = false.
+Proof. reflexivity. Qed.
 
 (* ---- system ---- *)
 Theorem C13_system_enforced_eq_valid_latest : forall ops,
@@ -280,6 +295,9 @@ Print Assumptions C13_enforced_breaker.
 Print Assumptions C13_getters_breaker.
 Print Assumptions C13_isolation_ok_trivial.
 Print Assumptions C13_identical_reload_nan_refuted.
+Print Assumptions C13_nan_invalid_flow.
+Print Assumptions C13_nan_invalid_breaker.
+Print Assumptions C13_nan_invalid_system.
 Print Assumptions C13_system_enforced_eq_valid_latest.
 Print Assumptions C13_system_unchanged_noop.
 Print Assumptions C13_system_identical_reload_unchanged.
